@@ -29,6 +29,7 @@ Step(e) == CASE e.a = "PeerAdvance"    -> PeerAdvance(e.t)
              [] e.a = "ProcCheck"      -> ProcCheck
              [] e.a = "ProcAdd"        -> ProcAdd
              [] e.a = "Restart"        -> Restart
+             [] e.a = "Drop"           -> Drop
              [] e.a = "ProcRestart"    -> ProcRestart
              [] OTHER                  -> FALSE
 
